@@ -107,6 +107,10 @@ type Generator struct {
 	// componentSchemaRefs is a set of schemas that must be defined in the components to avoid cycles
 	// or if we have specified create components schemas
 	componentSchemaRefs map[string]struct{}
+
+	// structSchemas holds the schema made (or being made) for every struct type of this generation:
+	// a reference that closes a cycle designates the schema of the type it names
+	structSchemas map[reflect.Type]*openapi3.Schema
 }
 
 func NewGenerator(opts ...Option) *Generator {
@@ -118,6 +122,7 @@ func NewGenerator(opts ...Option) *Generator {
 		Types:               make(map[reflect.Type]*openapi3.SchemaRef),
 		SchemaRefs:          make(map[*openapi3.SchemaRef]int),
 		componentSchemaRefs: make(map[string]struct{}),
+		structSchemas:       make(map[reflect.Type]*openapi3.Schema),
 		opts:                *gOpt,
 	}
 }
@@ -133,6 +138,11 @@ func (g *Generator) NewSchemaRefForValue(value any, schemas openapi3.Schemas) (*
 	if err != nil {
 		return nil, err
 	}
+	// (a struct type without tagged fields has a schema without properties: it is a component all the same)
+	ownSchemas := make(map[*openapi3.Schema]struct{}, len(g.structSchemas))
+	for _, s := range g.structSchemas {
+		ownSchemas[s] = struct{}{}
+	}
 	for ref := range g.SchemaRefs {
 		refName := ref.Ref
 		if g.opts.exportComponentSchemas.ExportComponentSchemas && strings.HasPrefix(refName, "#/components/schemas/") {
@@ -140,7 +150,8 @@ func (g *Generator) NewSchemaRefForValue(value any, schemas openapi3.Schemas) (*
 		}
 
 		if _, ok := g.componentSchemaRefs[refName]; ok && schemas != nil {
-			if ref.Value != nil && ref.Value.Properties != nil {
+			_, isStructSchema := ownSchemas[ref.Value]
+			if ref.Value != nil && (ref.Value.Properties != nil || isStructSchema) {
 				schemas[refName] = &openapi3.SchemaRef{
 					Value: ref.Value,
 				}
@@ -333,6 +344,9 @@ func (g *Generator) generateWithoutSaving(parents []*theTypeInfo, t reflect.Type
 			schema.Format = "date-time"
 		} else {
 			typeName := g.generateTypeName(t)
+			if g.structSchemas != nil {
+				g.structSchemas[t] = schema
+			}
 
 			if _, ok := g.componentSchemaRefs[typeName]; ok && g.opts.exportComponentSchemas.ExportComponentSchemas {
 				// Check if we have already parsed this component schema ref based on the name of the struct
@@ -343,6 +357,10 @@ func (g *Generator) generateWithoutSaving(parents []*theTypeInfo, t reflect.Type
 			for _, fieldInfo := range typeInfo.Fields {
 				// Only fields with JSON tag are considered (by default)
 				if !fieldInfo.HasJSONTag && !g.opts.useAllExportedFields {
+					// it is encoded all the same, and it hides a deeper (promoted) field of that name
+					if schema.Properties != nil {
+						delete(schema.Properties, fieldInfo.JSONName)
+					}
 					continue
 				}
 				// If asked, try to use yaml tag
@@ -485,6 +503,11 @@ func (g *Generator) generateCycleSchemaRef(t reflect.Type, schema *openapi3.Sche
 		return openapi3.NewSchemaRef("", mapSchema)
 	default:
 		typeName = g.generateTypeName(t)
+		// the component is the schema of the type the reference names, not of the type in which the cycle was
+		// noticed (they differ for indirect recursion: A -> B -> A noticed inside B)
+		if own, ok := g.structSchemas[t]; ok {
+			schema = own
+		}
 	}
 
 	g.componentSchemaRefs[typeName] = struct{}{}
